@@ -112,6 +112,18 @@ pub fn walk(ctx: &mut Ctx, g: &Guarded, h: &Multiboot2Header) {
             Err(()) => "PANIC".to_string(),
         },
     );
+    let r = guard(|| {
+        let mut it = h.iter();
+        let first = it.next().is_some();
+        (first, it.clone().count())
+    });
+    ctx.ln(
+        "tags_clone",
+        match r {
+            Ok((first, rest)) => format!("VAL first={} rest={}", first, rest),
+            Err(()) => "PANIC".to_string(),
+        },
+    );
 }
 
 /// `typ= flags= size=` of a typed header tag, read as raw bytes; enum-typed
